@@ -306,6 +306,93 @@ def c_op(op):
     raise ValueError(op)
 
 
+def c_wop(op):
+    """An operation of the world whose transport refuses writes (Model.ProviderW.wop)."""
+    if op[0] == 'segreset':
+        return '(SegReset %s)' % cbytes(op[1])
+    return '(Plain %s)' % c_op(op)
+
+
+IMPORTS_W = IMPORTS + 'From PND Require Import Model.ProviderW Corr.CorrProviderW.\n'
+
+
+def run_cases_w(prop, dec, cases, checks, size=40, runner=None, prefix='RunsW'):
+    """Like run_cases, for the transport that refuses writes once the peer has reset / closed the connection
+    (fail_sends): the cases are `wcase` terms compared with Model.ProviderW."""
+    env = c_env(message_table())
+    results = []
+    terms = []
+    for c in cases:
+        strict = bool(c.get('fail_sends'))
+        r = run(c['ops'], c['acceptor'], c.get('max_len', 65536), **(dict(fail_sends=True) if strict else {}))
+        results.append(r)
+        terms.append('(mkwc %s %s %d %s %s %s)' % (env, cbool(not c['acceptor']), c.get('max_len', 65536), cbool(strict),
+                                                   clist([c_wop(op) for op in c['ops']]), obs_term(r)))
+    runner = runner or common.CoqRun(prop)
+    failing, broken, n_obl, n_ok = common.run_sharded(runner, prefix, IMPORTS_W, 'wcase', terms, checks, size=size)
+    dec.obligations(n_obl, n_ok)
+    return runner, results, failing, broken
+
+
+def run_pairs_w(prop, dec, pairs, checks, runner=None, prefix='PairsW', size=4):
+    """pairs of cases (two deliveries of the same stream) on the transport of Model.ProviderW: `wpair` terms."""
+    env = c_env(message_table())
+    results = []
+    terms = []
+    for a, b in pairs:
+        sub = []
+        rr = []
+        for c in (a, b):
+            strict = bool(c.get('fail_sends'))
+            r = run(c['ops'], c['acceptor'], c.get('max_len', 65536), **(dict(fail_sends=True) if strict else {}))
+            rr.append(r)
+            sub.append('(mkwc %s %s %d %s %s %s)' % (env, cbool(not c['acceptor']), c.get('max_len', 65536), cbool(strict),
+                                                     clist([c_wop(op) for op in c['ops']]), obs_term(r)))
+        results.append(tuple(rr))
+        terms.append('(mkwp %s %s)' % tuple(sub))
+    runner = runner or common.CoqRun(prop)
+    failing, broken, n_obl, n_ok = common.run_sharded(runner, prefix, IMPORTS_W, 'wpair', terms, checks, size=size)
+    dec.obligations(n_obl, n_ok)
+    return runner, results, failing, broken
+
+
+def reset_scenarios(prefixes, rng, per_state):
+    """The peer RESETS the connection (its reset right behind its last bytes) while the provider still has something
+    to write: its A-ABORT in answer to an unrecognised / unexpected / unusable PDU, or the local user's PDUs while an
+    incomplete PDU of the peer is still being read (small receive size).  The kernel refuses those writes."""
+    junk = b'\xff\x00\x00\x00\x00\x04junk'
+    bad_data = b'\x04\x00\x00\x00\x00\x0a\x00\x00\x00\x06\x01\x07abcd'
+    long_partial = b'\x04\x00\x00\x00\x03\xe8' + bytes(range(40))
+    peer = [('junk', junk), ('unusable-pdata', bad_data), ('unexpected-ac', mk_ac().encode()),
+            ('unexpected-rq', mk_rq().encode()), ('release-rq', mk_rel_rq().encode()),
+            ('release-rp', mk_rel_rp().encode()), ('abort', mk_abort(2, 0).encode()),
+            ('partial-long-pdu', long_partial), ('nothing', b''), ('two-pdus', mk_rel_rq().encode() + junk)]
+    local = [('idle', lambda: [('idle',)]), ('user-abort', lambda: [('user', mk_abort(0, 0))]),
+             ('user-release-rq', lambda: [('user', mk_rel_rq())]), ('user-release-rp', lambda: [('user', mk_rel_rp())]),
+             ('user-message', lambda: [('usermsg', fragments(mk_message('echo_rq', 3), 1, 16384))]),
+             ('user-long-message', lambda: [('usermsg', fragments(mk_message('store_rq', 5, 300), 3, 128))]),
+             ('user-ac', lambda: [('user', mk_ac())]), ('user-rj', lambda: [('user', mk_rj())]),
+             ('tick', lambda: [('tick', 11)])]
+    cases = []
+    for plabel, acceptor, pre in prefixes:
+        for name, b in peer[:2]:      # the two scenarios of the first version, in every state
+            cases.append(dict(label=[plabel, name + '-then-reset'], acceptor=acceptor, fail_sends=True,
+                              ops=list(pre) + [('segreset', b)] + [('idle',)] * 4))
+        for _ in range(per_state):
+            name, b = rng.choice(peer)
+            max_len = rng.choice([65536, 65536, 16, 16, 7])
+            before = [f() for _n, f in [rng.choice(local) for _k in range(rng.choice([0, 0, 1]))]]
+            after = [(n, f()) for n, f in [rng.choice(local) for _k in range(rng.choice([0, 1, 2, 3]))]]
+            ops = list(pre) + [op for l in before for op in l] + [('segreset', b)] + \
+                [op for _n, l in after for op in l]
+            # enough iterations to read everything the peer sent through the receive size, and to drain a generator
+            n_bytes = sum(len(op[1]) for op in ops if op[0] in ('seg', 'segreset'))
+            ops = ops + [('idle',)] * (n_bytes // max_len + 12)
+            cases.append(dict(label=[plabel, name + '-then-reset', 'recv=%d' % max_len] + [n for n, _l in after],
+                              acceptor=acceptor, fail_sends=True, max_len=max_len, ops=ops))
+    return cases
+
+
 def given_term(x):
     from pynetdicom2 import dsutils
     if isinstance(x, tuple):
@@ -510,7 +597,7 @@ def replayable(record, case, ref=None, oracle=None):
     reference delivery a C03 case is compared with)."""
     try:
         out = dict(record, replay_case=dict(acceptor=case['acceptor'], max_len=case.get('max_len', 65536),
-                                            ops=ops_to_json(case['ops'])))
+                                            ops=ops_to_json(case['ops']), fail_sends=bool(case.get('fail_sends'))))
         if ref is not None:
             out['replay_ref'] = dict(acceptor=ref[0], ops=ops_to_json(ref[1]), max_len=ref[2])
         if oracle is not None:
@@ -532,7 +619,8 @@ def replay_case(prop, rec, checks):
     status = 0
     variants = [('recorded history', ops_from_json(rc['ops']))]
     for title, ops in variants:
-        r = run(ops, rc['acceptor'], rc['max_len'])
+        strict = bool(rc.get('fail_sends'))
+        r = run(ops, rc['acceptor'], rc['max_len'], **(dict(fail_sends=True) if strict else {}))
         o = obs_term(r)
         oref = o
         if rec.get('replay_ref'):
@@ -541,7 +629,13 @@ def replay_case(prop, rec, checks):
         term = '(mkpc %s %s %d %s %s %s)' % (env, cbool(not rc['acceptor']), rc['max_len'],
                                              clist([c_op(op) for op in ops]), o, oref)
         runner = common.CoqRun(prop + '-replay')
-        failing, broken, _a, _b = common.run_sharded(runner, 'Replay', IMPORTS, 'pcase', [term], checks, size=1)
+        if strict:       # the transport refuses writes once the peer has reset the connection: Model.ProviderW
+            term = '(mkwc %s %s %d true %s %s)' % (env, cbool(not rc['acceptor']), rc['max_len'],
+                                                   clist([c_wop(op) for op in ops]), o)
+            checks = [(c[0], c[1] if c[1].endswith('_w') else c[1] + '_w') + tuple(c[2:]) for c in checks]
+            failing, broken, _a, _b = common.run_sharded(runner, 'Replay', IMPORTS_W, 'wcase', [term], checks, size=1)
+        else:
+            failing, broken, _a, _b = common.run_sharded(runner, 'Replay', IMPORTS, 'pcase', [term], checks, size=1)
         runner.cleanup()
         print('%s (%d operations): %s' % (title, len(ops), short_ops(ops)))
         print('  implementation now:', summary(r))
